@@ -78,14 +78,22 @@ def _condition(r, rank):
 
 
 class _Req:
-    def __init__(self):
+    '''gone=True: the submitting client has lost its connection; twisted's
+    Request.finish() then raises RuntimeError'''
+
+    def __init__(self, gone=False):
         self.body = b''
         self.done = False
+        self.gone = gone
 
     def write(self, b):
         self.body += b
 
     def finish(self):
+        if self.gone:
+            raise RuntimeError(
+                'Request.finish called on a request after its connection '
+                'was lost')
         self.done = True
 
 
@@ -176,7 +184,7 @@ def execute(case):
             else:
                 out.label('reset-accepted')
 
-        def submit(prio, via, ok=True):
+        def submit(prio, via, ok=True, gone=False):
             active = f.is_pipeline_active()
             before = r.snapshot()
             if via == 0 and not ok:
@@ -209,7 +217,9 @@ def execute(case):
                 if strongest[0] is None or rank > strongest[0]:
                     strongest[0] = rank
             if via == 0:
-                req = _Req()
+                req = _Req(gone=gone)
+                if gone:
+                    out.label('client-gone-before-the-answer')
                 fsub.Process('cs', lambda: None, req, prio).step_0()
                 r.run_calls()
             elif active:
@@ -229,7 +239,8 @@ def execute(case):
             kind = ev[0]
             if kind == 'submit':
                 submit(PRIOS[ev[1] % len(PRIOS)], ev[2],
-                       ok=(len(ev) < 4 or bool(ev[3])))
+                       ok=(len(ev) < 4 or bool(ev[3])),
+                       gone=(len(ev) > 4 and bool(ev[4])))
             elif kind == 'reset':
                 reset_cmd(ev[1])
             elif kind == 'poll':
@@ -341,6 +352,8 @@ _ev = st.one_of(
     st.tuples(st.just('submit'), st.integers(0, 4), st.just(0),
               st.just(0)).map(list),
     st.tuples(st.just('reset'), st.integers(0, 1)).map(list),
+    st.tuples(st.just('submit'), st.integers(0, 4), st.just(0), st.just(1),
+              st.just(1)).map(list),
     st.tuples(st.just('finish'), st.just([0, 0, 0])).map(list),
     st.tuples(st.just('finish'), st.tuples(_n, _n, _n).map(list)).map(list),
     st.tuples(st.just('finish'), st.tuples(_n, _n, _n).map(list)).map(list),
@@ -363,7 +376,10 @@ def _cycles(draw):
         for prio, via in subs:
             if draw(st.integers(0, 5)) == 0:
                 word.append(['submit', draw(st.integers(0, 4)), 0, 0])
-            word.append(['submit', prio, via])
+            if draw(st.integers(0, 5)) == 0:
+                word.append(['submit', prio, 0, 1, 1])
+            else:
+                word.append(['submit', prio, via])
             if draw(st.integers(0, 7)) == 0:
                 word += [['archive'], ['reset', 0]]
         order = draw(st.permutations(['busy', 'doing', 'queue']))
